@@ -54,7 +54,7 @@ def pick_variant(prop, rng, scale=1.0):
     return "single"
 
 
-def make_case(prop, seed, i, tier):
+def _make_case(prop, seed, i, tier):
     rng = rng_for(prop, seed, i)
     big = tier == "thorough"
     if prop in USE_PAIRS and i < len(pairs()):
@@ -514,3 +514,14 @@ def run_case(case):
     res["status"] = int(m.project.status)
     res["time"] = m.project.time
     return res
+
+
+def make_case(prop, seed, i, tier):
+    case = _make_case(prop, seed, i, tier)
+    # numbers off every decimal grid for 6 % of the cases (a random stream of its own: the other cases stay as they were)
+    import random
+    r2 = random.Random("offgrid/%s/%s/%d" % (prop, seed, i))
+    if r2.random() < 0.06 and isinstance(case.get("spec"), dict) and case.get("source") != "shape-pair":
+        G.off_grid(r2, case["spec"])
+        case["source"] = case.get("source", "") + "+offgrid"
+    return case
